@@ -285,6 +285,16 @@ mk B21; d=$D
 edit "$d/stats/kde.go" 's.replace("return y(x) + (1 - y(2*kde.BoundaryMax-x))", "return y(x) - (1 - y(2*kde.BoundaryMax-x))")'
 expect B21 "$d" C12 tie_failed tie_KDE_CDF
 
+echo "== H12 harmless: bisectBool tests fmid != flow first (branches swapped)"
+mk H12; d=$D
+edit "$d/stats/alg.go" 's.replace("\t\tmid := (high + low) / 2\n\t\tif mid == high || mid == low {\n\t\t\treturn low, high\n\t\t}\n\t\tfmid := f(mid)\n\t\tif fmid == flow {\n\t\t\tlow = mid\n\t\t\tflow = fmid\n\t\t} else {\n\t\t\thigh = mid\n\t\t\tfhigh = fmid\n\t\t}", "\t\tmid := (high + low) / 2\n\t\tif mid == high || mid == low {\n\t\t\treturn low, high\n\t\t}\n\t\tfmid := f(mid)\n\t\tif fmid != flow {\n\t\t\thigh = mid\n\t\t\tfhigh = fmid\n\t\t} else {\n\t\t\tlow = mid\n\t\t\tflow = fmid\n\t\t}")'
+expect H12 "$d" C07 ok
+
+echo "== B22 breaking: bisectBool keeps the wrong half"
+mk B22; d=$D
+edit "$d/stats/alg.go" 's.replace("\t\tif fmid == flow {\n\t\t\tlow = mid\n\t\t\tflow = fmid", "\t\tif fmid != flow {\n\t\t\tlow = mid\n\t\t\tflow = fmid")'
+expect B22 "$d" C07 tie_failed tie_bisectBool
+
 if [ $FULL = 1 ]; then
   echo "== full check on B1: both ties report (correspondence finds a failing input)"
   out=$(VERIF_REPO="$B1" bin/check C13 quick 2>&1); rc=$?
